@@ -422,14 +422,22 @@ where
         if self.is_closed.load(Ordering::SeqCst) {
             return Ok(());
         }
+        #[cfg(transparencies_stretto_verif)]
+        crate::verif::yield_point("open_checked");
 
         // stop the process item thread.
         self.clear_tx.send(()).map_err(|e| {
             CacheError::SendError(format!("fail to send clear signal to working thread {}", e))
         })?;
 
+        #[cfg(transparencies_stretto_verif)]
+        crate::verif::yield_point("clr_policy");
         self.policy.clear();
+        #[cfg(transparencies_stretto_verif)]
+        crate::verif::yield_point("clr_store");
         self.store.clear();
+        #[cfg(transparencies_stretto_verif)]
+        crate::verif::yield_point("clr_metrics");
         self.metrics.clear();
 
         Ok(())
@@ -487,11 +495,17 @@ where
         if self.is_closed.load(Ordering::SeqCst) {
             return Ok(());
         }
+        #[cfg(transparencies_stretto_verif)]
+        crate::verif::yield_point("open_checked");
 
         let wg = WaitGroup::new();
         let wait_item = Item::Wait(wg.add(1));
         self.insert_buf_tx
             .try_send(wait_item)
+            .map(|_| {
+                #[cfg(transparencies_stretto_verif)]
+                crate::verif::yield_point("block:wait");
+            })
             .map(|_| wg.wait())
             .map_err(|e| CacheError::SendError(format!("cache set buf sender: {}", e)))
     }
@@ -506,6 +520,8 @@ where
         if self.is_closed.load(Ordering::SeqCst) {
             return Ok(());
         }
+        #[cfg(transparencies_stretto_verif)]
+        crate::verif::yield_point("open_checked");
 
         let (index, conflict) = self.key_to_hash.build_key(k);
         // delete immediately
@@ -514,6 +530,8 @@ where
         if let Some(prev) = prev {
             self.callback.on_exit(Some(prev.value.into_inner()));
         }
+        #[cfg(transparencies_stretto_verif)]
+        crate::verif::yield_point("rem_send");
         // If we've set an item, it would be applied slightly later.
         // So we must push the same item to `setBuf` with the deletion flag.
         // This ensures that if a set is followed by a delete, it will be
@@ -536,13 +554,21 @@ where
         if self.is_closed.load(Ordering::SeqCst) {
             return Ok(());
         }
+        #[cfg(transparencies_stretto_verif)]
+        crate::verif::yield_point("open_checked");
 
         self.clear()?;
+        #[cfg(transparencies_stretto_verif)]
+        crate::verif::yield_point("block:cls_stop");
         // Block until processItems thread is returned
         self.stop_tx
             .send(())
             .map_err(|e| CacheError::SendError(format!("{}", e)))?;
+        #[cfg(transparencies_stretto_verif)]
+        crate::verif::yield_point("unblock:cls_stop");
         self.policy.close()?;
+        #[cfg(transparencies_stretto_verif)]
+        crate::verif::yield_point("cls_flag");
         self.is_closed.store(true, Ordering::SeqCst);
         Ok(())
     }
@@ -559,9 +585,13 @@ where
         if self.is_closed.load(Ordering::SeqCst) {
             return Ok(false);
         }
+        #[cfg(transparencies_stretto_verif)]
+        crate::verif::yield_point("open_checked");
 
         self.try_update(key, val, cost, ttl, only_update)?
             .map_or(Ok(false), |(index, item)| {
+                #[cfg(transparencies_stretto_verif)]
+                crate::verif::yield_point("ins_send");
                 let is_update = item.is_update();
                 // Attempt to send item to policy.
                 select! {
@@ -633,6 +663,11 @@ where
 
     #[inline]
     pub(crate) fn spawn(mut self) -> JoinHandle<Result<(), CacheError>> {
+        #[cfg(transparencies_stretto_verif)]
+        if crate::verif::park_requested() {
+            crate::verif::park(Box::new(self));
+            return spawn(|| Ok(()));
+        }
         let ticker = tick(self.cleanup_duration);
         spawn(move || loop {
             select! {
@@ -680,6 +715,8 @@ where
         res.map_err(|e| CacheError::RecvError(format!("fail to receive msg from ticker: {}", e)))
             .and_then(|_| {
                 self.store.try_cleanup(self.policy.clone()).map(|items| {
+                    #[cfg(transparencies_stretto_verif)]
+                    crate::verif::yield_point("cleanup_done");
                     items.into_iter().for_each(|victim| {
                         self.prepare_evict(&victim);
                         self.callback.on_evict(victim);
@@ -699,6 +736,8 @@ where
     #[inline]
     pub(crate) fn clean(mut self) -> Result<(), CacheError> {
         loop {
+            #[cfg(transparencies_stretto_verif)]
+            crate::verif::yield_point("clean_item");
             select! {
                 // clear out the insert buffer channel.
                 recv(self.processor.insert_buf_rx) -> msg => {
@@ -714,3 +753,39 @@ impl_builder!(CacheBuilder);
 impl_cache!(Cache, CacheBuilder, Item);
 impl_cache_processor!(CacheProcessor, Item);
 impl_cache_cleaner!(CacheCleaner, CacheProcessor, Item);
+
+#[cfg(transparencies_stretto_verif)]
+impl<V, U, CB, S> CacheProcessor<V, U, CB, S>
+where
+    V: Send + Sync + 'static,
+    U: UpdateValidator<Value = V>,
+    CB: CacheCallback<Value = V>,
+    S: BuildHasher + Clone + 'static + Send + Sync,
+{
+    /// One iteration of the loop in `spawn`, with the `select!` arm chosen by the
+    /// caller; calls exactly the handlers the loop calls.
+    pub(crate) fn verif_step(&mut self, b: crate::verif::Branch) -> crate::verif::Stepped {
+        use crate::verif::{Branch, Stepped};
+        use crossbeam_channel::TryRecvError;
+        let r = match b {
+            Branch::Insert => match self.insert_buf_rx.try_recv() {
+                Ok(item) => self.handle_insert_event(Ok(item)),
+                Err(TryRecvError::Empty) => return Stepped::NotReady,
+                Err(TryRecvError::Disconnected) => self.handle_insert_event(Err(RecvError)),
+            },
+            Branch::Clear => match self.clear_rx.try_recv() {
+                Ok(_) | Err(TryRecvError::Disconnected) => self.handle_clear_event(),
+                Err(TryRecvError::Empty) => return Stepped::NotReady,
+            },
+            Branch::Tick => self.handle_cleanup_event(Ok(Instant::now())),
+            Branch::Stop => match self.stop_rx.try_recv() {
+                Ok(_) | Err(TryRecvError::Disconnected) => return Stepped::Exited,
+                Err(TryRecvError::Empty) => return Stepped::NotReady,
+            },
+        };
+        match r {
+            Ok(()) => Stepped::Done,
+            Err(e) => Stepped::Failed(format!("{}", e)),
+        }
+    }
+}
